@@ -13,6 +13,8 @@ compare-and-swap `Spec.apply`. `abs` looks at a store the way `try_find` does.
 -/
 import GixModel.Lemmas.C16Log
 import GixModel.Lemmas.C16Head
+import GixModel.Lemmas.C16Leaf
+import GixModel.Lemmas.C16Split
 import GixModel.Lemmas.C16Race
 import GixModel.Model.C16
 
@@ -474,11 +476,13 @@ example :
       | _ => false) = true := by decide
 
 /-- The full reflog statement, dereferencing edits included (a split symbolic ref such as HEAD logs
-the old value of the branch it points to). NOT proved in Lean: the leaf value travels through
-`leaf_referent_previous_oid`, whose propagation along the parent chain is only shown to terminate
-(C17 `second_walk_terminates`); the executable extended model computes it and agrees with the
-real code on the reflog contents of every `histx` history of the harness, and the harness oracle
-checks this statement (its Rust transcription) on the real code. -/
+the old value of the branch it points to, through `leaf_referent_previous_oid`, along chains of
+symbolic refs of any depth the split rounds allow). PROVED below (`C16_reflog_full_proved`,
+`reflog_lines_full`): the propagation of the leaf value along the parent chains is followed through
+the loop of `prepare_inner` (Lemmas/C16Chain: every value an edit sends up is the `leafOld` of
+every index it reaches, and every split symbolic ref whose chain ends in a value receives it) on top
+of what the split rounds guarantee about the parent pointers (Lemmas/C16Split). The harness oracle
+checks the same statement (its Rust transcription) on the real code. -/
 def C16_reflog_full : Prop :=
   ∀ (env : Env) (SX SX' : StoreX) (t : Txn) (es : List Edit), StoreOk SX.base → NoLocks SX.base → PlainTxn t →
     preProcess (fun n => lookup SX.base.loose n) t.edits = .ok es → blockedNames SX.base es = [] →
@@ -535,6 +539,40 @@ theorem head_logs_branch_old_value (env : Env) (SX SX' : StoreX) (m : Mode) (n n
       let l1 := if autoLog n || (lookup SX.logs n).isSome then appendLog SX.logs n (old, new) else SX.logs
       if autoLog next || (lookup l1 next).isSome then appendLog l1 next (old, new) else l1 :=
   reflog_head_explicit env SX SX' m n next ex old new hS hL hsym hold hchg h
+
+/-- Reflogs in ANY transaction that goes through — dereferencing edits, chains of symbolic refs,
+deletions, every mode: for every processed edit that updates and is not the log-only half of a split
+(no edit names it as parent; these are exactly the edits that change a reference), the reflog of its
+name afterwards is the reflog before plus the line of the compare-and-swap values — `old` = the
+object the name had, null id if none or symbolic — and only if the name gets reflogs by default or
+had one. (The lines of the split symbolic refs themselves are covered by `reflog_lines_full`.) -/
+theorem reflog_line_every_applied_edit (env : Env) (SX SX' : StoreX) (t : Txn) (hS : StoreOk SX.base)
+    (hL : NoLocks SX.base) (hT : PlainTxn t) (h : runX env SX t = .ok SX') (es : List Edit)
+    (hp : preProcess (fun n => lookup SX.base.loose n) t.edits = .ok es)
+    (i : Nat) (e : Edit) (hi : es[i]? = some e) (hnp : ∀ x ∈ es, x.parent ≠ some i)
+    (hupd : ∀ ex log, e.update.change ≠ .delete ex log) :
+    lookup SX'.logs e.name
+      = logAfter (lookup SX.logs e.name) (autoLog e.name) (specLine (abs SX.base e.name) e) :=
+  reflog_applied_edits env SX SX' t hS hL hT h es hp i e hi hnp hupd
+
+/-- `C16_reflog_full` holds. -/
+theorem C16_reflog_full_proved : C16_reflog_full :=
+  fun env SX SX' t es hS hL hT hp _ h => reflog_full env SX SX' t hS hL hT h es hp
+
+/-- The full reflog statement without any side condition: EVERY transaction that goes through —
+any user edits that are not reflog-only by themselves, dereferencing or not, several dereferencing
+edits, chains of symbolic refs, deletions, all three modes, names below loose reference files,
+any reflogs and references around — leaves exactly these reflogs: one line `old -> new` per update
+that changes an object (old = the object the name had, null id if none/symbolic; for a split
+symbolic ref the object at the end of its chain, or the `ExistingMustMatch` object of the edit for
+the missing name at the end, else the null id), nothing for symbolic new values (except the
+clone case), only for names that get reflogs by default or have one, and the reflogs of deleted
+names removed. -/
+theorem reflog_lines_full (env : Env) (SX SX' : StoreX) (t : Txn) (hS : StoreOk SX.base) (hL : NoLocks SX.base)
+    (hT : PlainTxn t) (h : runX env SX t = .ok SX') (es : List Edit)
+    (hp : preProcess (fun n => lookup SX.base.loose n) t.edits = .ok es) :
+    SX'.logs = logsD (specLogsUFull (abs SX.base) es SX.logs es) es :=
+  reflog_full env SX SX' t hS hL hT h es hp
 
 /-! ### writers contending on packed-refs.lock (small-step model GixModel.Lemmas.C16Race) -/
 
